@@ -270,7 +270,10 @@ func TestReplay(t *testing.T) {
 		Script   *Script `json:"script"`
 	}
 	must(json.Unmarshal(b, &rf))
-	def := Props[rf.Property]
+	def, ok := Props[rf.Property]
+	if !ok {
+		def = Props[rf.Script.Prop]
+	}
 	ws := newStats(rf.Property, 0)
 	defer ws.write()
 	res := RunScript(t, rf.Script, def.Oracles(), true)
